@@ -62,6 +62,7 @@ func replay(run *ev.Run, path string) {
 				CT     string                `json:"content_type"`
 				Body   struct{ Name string } `json:"body"`
 				Query  struct{ Name string } `json:"query"`
+				Stream bool                  `json:"stream"`
 			} `json:"requests"`
 		}
 		if err := json.Unmarshal(f.Case, &tc); err != nil {
@@ -83,7 +84,7 @@ func replay(run *ev.Run, path string) {
 			if bd == nil || q == nil {
 				ev.ToolError("replay: unknown body %q or query %q", r.Body.Name, r.Query.Name)
 			}
-			rq := &request{r.Method, r.CT, bd, q}
+			rq := &request{Method: r.Method, CT: r.CT, Body: bd, Query: q, Stream: r.Stream}
 			seq = append(seq, rq)
 			cur := append([]*request{}, seq...)
 			if _, ok := c.step(g, rq, true, func() any { return traceCase{"http", tc.Start, cur} }); !ok {
@@ -122,7 +123,7 @@ func main() {
 	run.Assume = []string{
 		"text: acceptance rule is ASCII case-insensitivity (ParseLevel doc: 'lower-case or all-caps ASCII representation'); JSON null / YAML null into a Level are not level text and are left out",
 		"text: JSON and YAML entry points are driven with texts that are valid UTF-8 (JSON) / printable (YAML, double-quoted scalar; plain scalar only for letter-only texts); the direct entry points get every byte string",
-		"endpoint: states are the 7 valid levels; requests are built with httptest.NewRequest and served by AtomicLevel.ServeHTTP on an httptest.ResponseRecorder (no listener, no transport-level rewriting)",
+		"endpoint: states are the 7 valid levels; requests are built with httptest.NewRequest and served by AtomicLevel.ServeHTTP on an httptest.ResponseRecorder (no listener, no transport-level rewriting); every request with a body is sent twice - with a declared Content-Length, and streamed one byte at a time without one (ContentLength -1, a chunked upload) - and the same reference applies to both",
 		"endpoint: left out - JSON keys differing from `level` only in case; a form body with an empty `level` combined with a valid `level` in the query; non-empty PUTs with an upper-case or multipart media type",
 		"endpoint: where the documentation allows two readings both outcomes are accepted (but nothing else): duplicate `level` members/keys (first or last), bytes after the first JSON value (set or 400), malformed form level with a query level, `application/x-www-form-urlencoded; charset=...` (form or JSON decoding), and the documented example `PUT ?level=x` without content type and body (set, as the example says, or 400, as the JSON rule says)",
 		"endpoint: error statuses are only required to be 4xx (the statement does not name 405/400); a 2xx body must be exactly {\"level\":\"<level in force>\"}",
